@@ -438,7 +438,29 @@ def _run(*, tier, seed, jobs, progress, opts):
             evals += n
         for t in tasks:
             fam[t[0]] = fam.get(t[0], 0) + 1
+    # (d) E7: a mover/copier/appender and a second session on the same
+    # messages as two real server instances on one maildir, every schedule of
+    # their filesystem calls
+    from . import c14mt
+    mtc = {'pairs': 0, 'executions': 0, 'distinct_outcomes': 0,
+           'by_preemptions': {}, 'max_decision_points': 0}
+    with mp.get_context('fork').Pool(njobs) as pool:
+        for st in pool.imap_unordered(c14mt.task, c14mt.tasks(tier),
+                                      chunksize=1):
+            if 'error' in st:
+                raise RuntimeError(f'E7 harness error: {st}')
+            mtc['pairs'] += 1
+            mtc['executions'] += st['executions']
+            mtc['distinct_outcomes'] += st['outcomes']
+            mtc['max_decision_points'] = max(mtc['max_decision_points'],
+                                             st['max_points'])
+            for k, n in st['by_preemptions'].items():
+                mtc['by_preemptions'][str(k)] = \
+                    mtc['by_preemptions'].get(str(k), 0) + n
+            violations += st['violations']
+    evals += mtc['executions']
     cov = {'evaluations': evals, 'distinct_nontrivial': len(tasks),
+           'threads': mtc,
            'tasks_per_family': fam,
            'iteration_boundaries': {f'{w}:{c}': n for w, c, n in counts},
            'commands': {k: v[:60].decode('latin1') for k, v in COMMANDS.items()},
@@ -450,16 +472,40 @@ def _run(*, tier, seed, jobs, progress, opts):
                     '(dict) / the n-th mutating filesystem call (maildir, '
                     'ENOSPC) fails, for every n until the command no longer '
                     'reaches n; (c) kill at every filesystem boundary of 4 '
-                    'MOVE histories per layout, then restart'),
+                    'MOVE histories per layout, then restart; (d) E7: two '
+                    'real server instances on one maildir (as two worker '
+                    'threads or processes are), one running MOVE / MOVE of '
+                    'two / COPY / multi-APPEND / EXPUNGE, the other a command '
+                    'on the same messages (STORE, FETCH BODY[], MOVE, COPY, '
+                    'SELECT, NOOP, APPEND, EXPUNGE, CHECK): every schedule '
+                    'of their filesystem calls with <= 1 preemption '
+                    '(thorough: both layouts, core pairs 2)'),
            'samples': [str(t) for t in tasks[::max(1, len(tasks) // 8)]],
            'exhaustive': True}
     return finish(PROP, tier=tier, seed=seed, level='fault_enumeration',
                   coverage=cov, violations=violations, t0=t0, assumptions=[
                       'asyncio subsystem (dict and maildir); one acting '
                       'session, probe through a fresh connection after the '
-                      'fault', 'maildir under threads is not explored'])
+                      'fault',
+                      'E7: thread/process interleavings at filesystem-call '
+                      'granularity (maildir sessions share only the '
+                      'filesystem); contents judged after both commands ended'])
 
 
 def replay(rec):
-    print(rec['replay'])
+    r = rec['replay']
+    if r.get('mt14'):
+        from . import c14mt, mtmaildir as mt
+        names = tuple(r['names'])
+        with scratch_parent():
+            pre = [c14mt.PROGRAMS[n][0](i) for i, n in enumerate(names)]
+            progs = [c14mt.PROGRAMS[n][1](i) for i, n in enumerate(names)]
+            ex, info = mt.run_schedule(r['layout'], progs, r['prefix'],
+                                       pre=pre)
+            viols = c14mt.judge(r['layout'], names, False, ex, info)
+            mt.drop_templates()
+        for v in viols:
+            print('VIOLATION-REPLAYED', v['rule'], v['site'], v['msg'])
+        return 1 if viols else 0
+    print(r)
     return 0
